@@ -384,8 +384,9 @@ End Correct.
 Section Valid.
 Variable mangle : string -> string.
 
-(* a pattern Python's own grammar would accept: stars only in sequences and at most one, two or more
-   alternatives, equally many keys/sub-patterns, names that do not mangle to "_" *)
+(* what compile_pattern does not check itself: stars only in sequences and at most one, equally many
+   keys/sub-patterns, names that do not mangle to "_" (the alternatives of an or-pattern, the attribute of
+   a value pattern and the literal `:as _` are compile_pattern's own syntax errors: [accepted]) *)
 Definition hname_ok (n : string) : bool := negb (String.eqb (mangle n) "_").
 
 Fixpoint hwf (in_seq : bool) (h : hpat) : bool :=
@@ -393,7 +394,7 @@ Fixpoint hwf (in_seq : bool) (h : hpat) : bool :=
   | HLit _ | HValue _ | HKeyword _ => true
   | HSym s => mem s singleton_names || String.eqb s wildcard_name || hname_ok s
   | HStar n => in_seq && (String.eqb n star_wildcard_name || hname_ok n)
-  | HOr ps => Nat.leb 2 (List.length ps) && forallb (hwf false) ps
+  | HOr ps => forallb (hwf false) ps
   | HSeq ps => forallb (hwf true) ps
                && Nat.leb (List.length (filter (fun q => match q with HStar _ => true | _ => false end) ps)) 1
   | HMap ks ps r => Nat.eqb (List.length ks) (List.length ps) && forallb (hwf false) ps
@@ -417,9 +418,21 @@ Proof.
     exact IH.
 Qed.
 
-Theorem compile_valid : forall h b, supported mangle h = true -> hwf b h = true -> valid b (compile mangle h) = true.
+(* obligations on the regenerated thresholds: they are the ones compile() itself applies *)
+Lemma or_min_is_two : or_min_alternatives = 2.
+Proof. reflexivity. Qed.
+Lemma value_min_is_two : value_min_symbols = 2.
+Proof. reflexivity. Qed.
+
+Lemma forallb_In {A} (f : A -> bool) l x : forallb f l = true -> In x l -> f x = true.
+Proof. intros H Hx. exact (proj1 (forallb_forall _ _) H x Hx). Qed.
+
+(* a pattern compile_pattern accepts compiles to a node compile() accepts (given what compile_pattern
+   leaves unchecked: hwf) *)
+Theorem compile_valid : forall h b, supported mangle h = true -> accepted h = true -> hwf b h = true ->
+  valid b (compile mangle h) = true.
 Proof.
-  induction h using hpat_ind'; intros b S W.
+  induction h using hpat_ind'; intros b S A W.
   - reflexivity.
   - cbn [compile]. cbn [hwf] in W. rewrite singleton_names_eq in *. unfold mem in *. cbn [existsb] in *.
     unfold singleton_of.
@@ -427,34 +440,83 @@ Proof.
     destruct (String.eqb s "True") eqn:E2; [reflexivity|].
     destruct (String.eqb s "False") eqn:E3; [reflexivity|]. cbn [orb] in *.
     destruct (String.eqb s wildcard_name); [reflexivity|]. cbn [orb] in W. exact W.
-  - cbn [supported hwf] in *. apply andb_true_iff in W. destruct W as [W1 W2]. cbn [compile valid].
-    rewrite map_length, W1. cbn [andb]. rewrite forallb_map. apply forallb_forall. intros x Hx.
-    rewrite Forall_forall in H. apply H; [exact Hx | exact (proj1 (forallb_forall _ _) S x Hx)
-                                         | exact (proj1 (forallb_forall _ _) W2 x Hx)].
-  - reflexivity.
-  - cbn [supported hwf] in *. apply andb_true_iff in W. destruct W as [W1 W2]. cbn [compile valid].
+  - cbn [supported hwf accepted] in *. rewrite or_min_is_two in A. apply andb_true_iff in A. destruct A as [A1 A2].
+    cbn [compile valid]. rewrite map_length, A1. cbn [andb]. rewrite forallb_map. apply forallb_forall. intros x Hx.
+    rewrite Forall_forall in H. apply H; [exact Hx | exact (forallb_In _ _ _ S Hx) | exact (forallb_In _ _ _ A2 Hx)
+                                         | exact (forallb_In _ _ _ W Hx)].
+  - cbn [accepted] in A. rewrite value_min_is_two in A. cbn [compile valid]. rewrite map_length. exact A.
+  - cbn [supported hwf accepted] in *. apply andb_true_iff in W. destruct W as [W1 W2]. cbn [compile valid].
     rewrite star_filter_compile, map_length, W2, andb_true_r. rewrite forallb_map. apply forallb_forall. intros x Hx.
-    rewrite Forall_forall in H. apply H; [exact Hx | exact (proj1 (forallb_forall _ _) S x Hx)
-                                         | exact (proj1 (forallb_forall _ _) W1 x Hx)].
+    rewrite Forall_forall in H. apply H; [exact Hx | exact (forallb_In _ _ _ S Hx) | exact (forallb_In _ _ _ A Hx)
+                                         | exact (forallb_In _ _ _ W1 Hx)].
   - cbn [hwf] in W. cbn [compile valid]. apply andb_true_iff in W. destruct W as [W1 W2]. rewrite W1. cbn [andb].
     destruct (String.eqb n star_wildcard_name); [reflexivity|]. exact W2.
-  - cbn [supported hwf] in *. apply andb_true_iff in W. destruct W as [W W3]. apply andb_true_iff in W. destruct W as [W1 W2].
+  - cbn [supported hwf accepted] in *. apply andb_true_iff in W. destruct W as [W W3]. apply andb_true_iff in W. destruct W as [W1 W2].
     cbn [compile valid]. rewrite !map_length, W1. cbn [andb].
     assert (G : forallb (valid false) (map (compile mangle) ps) = true).
     { rewrite forallb_map. apply forallb_forall. intros x Hx. rewrite Forall_forall in H.
-      apply H; [exact Hx | exact (proj1 (forallb_forall _ _) S x Hx) | exact (proj1 (forallb_forall _ _) W2 x Hx)]. }
+      apply H; [exact Hx | exact (forallb_In _ _ _ S Hx) | exact (forallb_In _ _ _ A Hx) | exact (forallb_In _ _ _ W2 Hx)]. }
     rewrite G. cbn [andb]. destruct r; [exact W3 | reflexivity].
-  - cbn [supported hwf] in *. apply andb_true_iff in S. destruct S as [S S3]. apply andb_true_iff in S. destruct S as [_ S2].
+  - cbn [supported hwf accepted] in *. apply andb_true_iff in S. destruct S as [S S3]. apply andb_true_iff in S. destruct S as [_ S2].
+    apply andb_true_iff in A. destruct A as [A2 A3].
     apply andb_true_iff in W. destruct W as [W W3]. apply andb_true_iff in W. destruct W as [W1 W2].
     cbn [compile valid]. rewrite !map_length, W1. cbn [andb]. rewrite !forallb_map.
     apply andb_true_iff. split; apply forallb_forall; intros x Hx.
-    + rewrite Forall_forall in H. apply H; [exact Hx | exact (proj1 (forallb_forall _ _) S2 x Hx)
-                                           | exact (proj1 (forallb_forall _ _) W2 x Hx)].
-    + rewrite Forall_forall in H0. apply H0; [exact Hx | exact (proj1 (forallb_forall _ _) S3 x Hx)
-                                             | exact (proj1 (forallb_forall _ _) W3 x Hx)].
+    + rewrite Forall_forall in H. apply H; [exact Hx | exact (forallb_In _ _ _ S2 Hx) | exact (forallb_In _ _ _ A2 Hx)
+                                           | exact (forallb_In _ _ _ W2 Hx)].
+    + rewrite Forall_forall in H0. apply H0; [exact Hx | exact (forallb_In _ _ _ S3 Hx) | exact (forallb_In _ _ _ A3 Hx)
+                                             | exact (forallb_In _ _ _ W3 Hx)].
   - reflexivity.
-  - cbn [supported hwf] in *. apply andb_true_iff in W. destruct W as [W1 W2]. cbn [compile valid].
-    rewrite (IHh false S W1). exact W2.
+  - cbn [supported hwf accepted] in *. apply andb_true_iff in W. destruct W as [W1 W2].
+    apply andb_true_iff in A. destruct A as [_ A2]. cbn [compile valid].
+    rewrite (IHh false S A2 W1). exact W2.
+Qed.
+
+(* the converse for the three checks: a pattern compile_pattern rejects would have compiled to a node
+   compile() rejects -- no well-formed input is lost to the new syntax errors, except `p :as _` whose
+   emitted node is rejected because of the name *)
+Theorem rejected_would_be_invalid : forall h b, supported mangle h = true -> mangle as_forbidden_name = "_" ->
+  accepted h = false -> valid b (compile mangle h) = false.
+Proof.
+  induction h using hpat_ind'; intros b S Mu A; try discriminate.
+  - cbn [supported accepted] in *. rewrite or_min_is_two in A. cbn [compile valid]. rewrite map_length.
+    destruct (Nat.leb 2 (List.length ps)); [|reflexivity]. cbn [andb] in *.
+    rewrite forallb_map. clear - H S A Mu. induction H as [|x r Hx _ IH]; [discriminate|].
+    cbn [forallb] in *. apply andb_true_iff in S. destruct S as [S1 S2].
+    destruct (accepted x) eqn:E; [cbn [andb] in A; rewrite (IH S2 A); apply andb_false_r|].
+    rewrite (Hx false S1 Mu eq_refl). reflexivity.
+  - cbn [accepted] in A. rewrite value_min_is_two in A. cbn [compile valid]. rewrite map_length. exact A.
+  - cbn [supported accepted] in *. cbn [compile valid]. rewrite forallb_map.
+    assert (G : forallb (fun x => valid true (compile mangle x)) ps = false).
+    { clear - H S A Mu. induction H as [|x r Hx _ IH]; [discriminate|].
+      cbn [forallb] in *. apply andb_true_iff in S. destruct S as [S1 S2].
+      destruct (accepted x) eqn:E; [cbn [andb] in A; rewrite (IH S2 A); apply andb_false_r|].
+      rewrite (Hx true S1 Mu eq_refl). reflexivity. }
+    rewrite G. reflexivity.
+  - cbn [supported accepted] in *. cbn [compile valid]. rewrite forallb_map.
+    assert (G : forallb (fun x => valid false (compile mangle x)) ps = false).
+    { clear - H S A Mu. induction H as [|x r Hx _ IH]; [discriminate|].
+      cbn [forallb] in *. apply andb_true_iff in S. destruct S as [S1 S2].
+      destruct (accepted x) eqn:E; [cbn [andb] in A; rewrite (IH S2 A); apply andb_false_r|].
+      rewrite (Hx false S1 Mu eq_refl). reflexivity. }
+    rewrite G. rewrite andb_false_r. reflexivity.
+  - cbn [supported accepted] in *. apply andb_true_iff in S. destruct S as [S S3]. apply andb_true_iff in S. destruct S as [_ S2].
+    cbn [compile valid]. rewrite !forallb_map.
+    assert (G : forall l, Forall (fun h => forall b, supported mangle h = true -> mangle as_forbidden_name = "_" ->
+                                   accepted h = false -> valid b (compile mangle h) = false) l ->
+                forallb (supported mangle) l = true -> forallb accepted l = false ->
+                forallb (fun x => valid false (compile mangle x)) l = false).
+    { clear - Mu. intros l Hl. induction Hl as [|x r Hx _ IH]; intros S A; [discriminate|].
+      cbn [forallb] in *. apply andb_true_iff in S. destruct S as [S1 S2].
+      destruct (accepted x) eqn:E; [cbn [andb] in A; rewrite (IH S2 A); apply andb_false_r|].
+      rewrite (Hx false S1 Mu eq_refl). reflexivity. }
+    destruct (forallb accepted ps) eqn:E1.
+    + cbn [andb] in A. rewrite (G kps H0 S3 A). apply andb_false_r.
+    + rewrite (G ps H S2 E1). rewrite andb_false_r. reflexivity.
+  - cbn [supported accepted] in *. cbn [compile valid].
+    destruct (String.eqb n as_forbidden_name) eqn:E.
+    + apply String.eqb_eq in E. subst n. rewrite Mu. cbn [name_ok String.eqb negb]. apply andb_false_r.
+    + cbn [negb andb] in A. rewrite (IHh false S Mu A). reflexivity.
 Qed.
 End Valid.
 
@@ -491,8 +553,13 @@ Proof.
   intros. apply match_correct. apply Forall_forall. intros c _. apply supported_all.
 Qed.
 
-Theorem compile_valid_all : forall (mangle : string -> string) h b, hwf mangle b h = true -> valid b (compile mangle h) = true.
-Proof. intros. apply compile_valid; [apply supported_all | assumption]. Qed.
+Theorem compile_valid_all : forall (mangle : string -> string) h b,
+  accepted h = true -> hwf mangle b h = true -> valid b (compile mangle h) = true.
+Proof. intros. apply compile_valid; [apply supported_all | assumption | assumption]. Qed.
+
+Theorem rejected_would_be_invalid_all : forall (mangle : string -> string) h b, mangle as_forbidden_name = "_" ->
+  accepted h = false -> valid b (compile mangle h) = false.
+Proof. intros. apply rejected_would_be_invalid; [apply supported_all | assumption | assumption]. Qed.
 
 (* a toy value domain for the examples: the three constructs that used to be miscompiled *)
 Inductive tval := TStr (s : string) | TList (l : list tval) | TObj (attrs : list (string * tval)).
